@@ -33,7 +33,7 @@ func init() {
 		Assumptions: []string{
 			"the interleaved framing itself ('$', channel, length) stays intact: a corrupted length cannot be resynchronised by any receiver and is outside 'malformed media input'",
 		},
-		RequiredProbes: []string{"c07.fault-injected", "c07.liveness-checked", "c07.malformed-input-comes-first"},
+		RequiredProbes: []string{"c07.fault-injected", "c07.liveness-checked", "c07.malformed-input-comes-first", "c07.parameter-sets-in-band-only", "c07.ts-keyframe-parameter-sets-checked"},
 	})
 }
 
@@ -396,11 +396,25 @@ func buildC07(tier string) sim.Scenario {
 				w.Fail("C07/hls-broken", "segment %d: %v", seq, err)
 				return
 			}
+			spsFix, _ := base64.StdEncoding.DecodeString("Z2QAH6zZQFAFuhAAAAMAEAAAAwPI8YMZYA==")
+			ppsFix, _ := base64.StdEncoding.DecodeString("aO+8sA==")
 			for _, pes := range ts.PES {
 				for i := firstClean; i < len(sent); i++ {
 					for _, n := range sent[i].nals {
 						if len(n) > 20 && bytes.Contains(pes.ES, n) {
 							found = true
+							// a key frame sent after the malformed input is decodable on its own: the stream's parameter
+							// sets (the well-formed ones: SDP or in-band) come in front of it
+							// (only judged when the SDP names the parameter sets: in-band-only sets can be displaced by an intact
+							// parameter-set unit inside a malformed packet, which the server cannot tell from a genuine one)
+							if n[0]&0x1f == 5 && !noSprop {
+								at := bytes.Index(pes.ES, n)
+								if !bytes.Contains(pes.ES[:at], spsFix) || !bytes.Contains(pes.ES[:at], ppsFix) {
+									w.Fail("C07/hls-keyframe-without-parameter-sets", "segment %d: a key frame sent after the malformed input %v is not preceded by the stream's SPS and PPS in its access unit (in-band only=%v)", seq, faultNames, noSprop)
+									return
+								}
+								w.Probe("c07.ts-keyframe-parameter-sets-checked")
+							}
 						}
 					}
 				}
